@@ -2018,13 +2018,33 @@ impl LpgStore {
         }
 
         // Remove uncommitted edge versions
+        let mut discarded_edges: Vec<(EdgeId, NodeId, NodeId)> = Vec::new();
         {
             let mut edges = self.edges.write();
-            for chain in edges.values_mut() {
+            for (id, chain) in edges.iter_mut() {
+                // End points of an edge this transaction created (its own version is visible to it)
+                let ends = chain
+                    .visible_to(EpochId::INITIAL, tx_id)
+                    .map(|record| (record.src, record.dst));
                 chain.remove_versions_by(tx_id);
+                if chain.is_empty()
+                    && let Some((src, dst)) = ends
+                {
+                    discarded_edges.push((*id, src, dst));
+                }
             }
             // Remove completely empty chains (no versions left)
             edges.retain(|_, chain| !chain.is_empty());
+        }
+
+        // An edge that no longer exists must leave the adjacency lists and the property
+        // table as well, or neighbour listings and degrees keep reporting it
+        for (id, src, dst) in discarded_edges {
+            self.forward_adj.mark_deleted(src, id);
+            if let Some(ref backward) = self.backward_adj {
+                backward.mark_deleted(dst, id);
+            }
+            self.edge_properties.remove_all(id);
         }
     }
 
